@@ -17,6 +17,17 @@ class ImplRaised(Exception):
         self.exc = exc
 
 
+class ArgsWritten(ImplRaised):
+    """the call returned, but the list the caller passed as ranks= / scores= / teams no longer holds what the caller wrote
+    into it: the caller's own record of the game is changed behind its back, and a later call given the same list object
+    rates a different game than the one the caller describes"""
+
+    def __init__(self, case, what):
+        Exception.__init__(self, what)
+        self.case = case
+        self.exc = None
+
+
 _POOL = None
 
 
@@ -71,11 +82,22 @@ def call_rate(kind, st, teams, ranks=OMIT, scores=OMIT, tau=OMIT, lim=OMIT, mode
     for nm, v in (("ranks", ranks), ("scores", scores), ("tau", tau), ("limit_sigma", lim)):
         if v != OMIT:
             kw[nm] = to_python(v)
+    keep = {nm: [(type(x), repr(x)) for x in kw[nm]] for nm in ("ranks", "scores") if isinstance(kw.get(nm), list)}
+    shape = [(id(t), [id(p) for p in t]) for t in objs]
     try:
         res = m.rate(objs, **kw)
     except Exception as e:  # noqa: BLE001
         raise ImplRaised({"op": "rate", "kind": kind, "st": st, "teams": teams, "ranks": ranks, "scores": scores,
                           "tau": tau, "lim": lim}, e) from e
+    for nm, was in keep.items():
+        if [(type(x), repr(x)) for x in kw[nm]] != was:
+            raise ArgsWritten({"op": "rate", "kind": kind, "st": st, "teams": teams, "ranks": ranks, "scores": scores,
+                               "tau": tau, "lim": lim},
+                              "rate() changed the list passed as %s=: the caller wrote %s, after the call it reads %r" % (
+                                  nm, [w[1] for w in was], kw[nm]))
+    if [(id(t), [id(p) for p in t]) for t in objs] != shape:
+        raise ArgsWritten({"op": "rate", "kind": kind, "st": st, "teams": teams, "ranks": ranks, "scores": scores,
+                           "tau": tau, "lim": lim}, "rate() re-arranged the list of teams (or a team's list of players) it was passed")
     return [[(p.mu, p.sigma) for p in t] for t in res], res, objs, m
 
 
